@@ -28,7 +28,16 @@ func main() {
 	only := flag.String("only", "", "report only the obligation with this 'rule construct' key (replay)")
 	list := flag.Bool("list", false, "print every obligation")
 	gen := flag.String("gen-ref", "", "write ref/ximage_tables.json from this golang.org/x/image source tree and exit")
+	genK := flag.String("gen-kernel-ref", "", "write ref/ximage_kernels.json (S8 normal forms of the vp8 predictors and transforms) from this golang.org/x/image source tree and exit")
 	flag.Parse()
+	if *genK != "" {
+		if err := genKernRef(*genK, *verif+"/ref/ximage_kernels.json"); err != nil {
+			fmt.Fprintln(os.Stderr, err)
+			os.Exit(2)
+		}
+		fmt.Println("wrote", *verif+"/ref/ximage_kernels.json")
+		return
+	}
 	if *gen != "" {
 		if err := genRef(*gen, *verif+"/ref/ximage_tables.json"); err != nil {
 			fmt.Fprintln(os.Stderr, err)
